@@ -43,6 +43,9 @@ type c05Case struct {
 	// container: the table is handed to the Builder as written (entries whose source is missing included) instead of
 	// being filtered by the caller first; namespace runner: no effect (its callers always filter)
 	Unfiltered bool `json:",omitempty"`
+	// container: the program is started with two listed descriptors only (report pipe, release pipe): the unfilled third
+	// stdio slot must not hold anything of the init's - its own stdio are host objects that are in no bind mount
+	FewFiles bool `json:",omitempty"`
 }
 
 func c05GenCase(rt *rapid.T) c05Case {
@@ -126,6 +129,7 @@ func c05GenCase(rt *rapid.T) c05Case {
 			c.DevNull = true // os/exec needs it for the command's stdio
 		}
 		c.Unfiltered = rapid.IntRange(0, 3).Draw(rt, "unfiltered") == 0
+		c.FewFiles = rapid.IntRange(0, 3).Draw(rt, "fewfiles") == 0
 		if nothingLeft {
 			c.Unfiltered, c.DevNull, c.InitCmd = n > 0, false, false
 		}
@@ -173,7 +177,11 @@ func hasOpt(opts, o string) bool {
 
 // runInspect starts run in a goroutine, waits until the program (pid from the sync callback) blocks in read(4),
 // calls inspect, releases the program and returns the result.
-func runInspect(run func(sync func(int) error) runner.Result, release *os.File, inspect func(pid int)) (runner.Result, error) {
+func runInspect(run func(sync func(int) error) runner.Result, release *os.File, inspect func(pid int), waitFd ...int) (runner.Result, error) {
+	wfd := 4
+	if len(waitFd) > 0 {
+		wfd = waitFd[0]
+	}
 	pidCh := make(chan int, 1)
 	resCh := make(chan runner.Result, 1)
 	go func() {
@@ -195,7 +203,7 @@ func runInspect(run func(sync func(int) error) runner.Result, release *os.File, 
 	}
 	deadline := time.Now().Add(10 * time.Second)
 	for {
-		if sysc, err := os.ReadFile(fmt.Sprintf("/proc/%d/syscall", pid)); err == nil && strings.HasPrefix(string(sysc), "0 0x4 ") {
+		if sysc, err := os.ReadFile(fmt.Sprintf("/proc/%d/syscall", pid)); err == nil && strings.HasPrefix(string(sysc), fmt.Sprintf("0 0x%x ", wfd)) {
 			inspect(pid)
 			break
 		}
@@ -327,6 +335,8 @@ func c05Run(c c05Case, dir string, rec *vh.Recorder) error {
 
 	// probe script
 	var s probe.Script
+	few := c.FewFiles && c.Impl == "container"
+	s.Add("report:fds") // first thing: what the program was started with, before it opens anything itself
 	at := uint64(0xffffffffffffff9c)
 	type opRef struct {
 		what   string
@@ -377,7 +387,11 @@ func c05Run(c c05Case, dir string, rec *vh.Recorder) error {
 	_ = walkIdx
 	_ = escIdx
 	s.Sys(sysNr["getppid"])
-	s.Add("waitgo:4")
+	if few {
+		s.Add("waitgo:1")
+	} else {
+		s.Add("waitgo:4")
+	}
 	s.Add("exit:0")
 
 	rp, err := newReportPipe()
@@ -399,8 +413,14 @@ func c05Run(c c05Case, dir string, rec *vh.Recorder) error {
 	}
 	tag := newTag()
 	argv := s.Argv(tag, 3)
+	if few {
+		argv = s.Argv(tag, 0)
+	}
 	argv[0] = "/vprobe"
 	files := []uintptr{dn.Fd(), dn.Fd(), dn.Fd(), rp.pw.Fd(), gr.Fd()}
+	if few {
+		files = []uintptr{rp.pw.Fd(), gr.Fd()}
+	}
 	var mountinfo string
 	inspect := func(pid int) {
 		b, _ := os.ReadFile(fmt.Sprintf("/proc/%d/mountinfo", pid))
@@ -458,7 +478,7 @@ func c05Run(c c05Case, dir string, rec *vh.Recorder) error {
 		defer env.Destroy()
 		res, err = runInspect(func(sync func(int) error) runner.Result {
 			return env.Execve(context.Background(), container.ExecveParam{Args: argv, Env: []string{"A=1"}, ExecFile: efd, Files: files, SyncFunc: sync})
-		}, gw, inspect)
+		}, gw, inspect, map[bool]int{true: 1, false: 4}[few])
 		if err != nil {
 			rp.finish()
 			killTagged(tag)
@@ -480,6 +500,17 @@ func c05Run(c c05Case, dir string, rec *vh.Recorder) error {
 		return vh.Violf("C05:no-report", "report incomplete %q; %s", rep.Raw, desc)
 	}
 
+	// 0. nothing of the host reaches the program through a descriptor it was not given
+	if rep.FDsDone {
+		for _, f := range rep.FDs {
+			if f.N >= len(files) {
+				return vh.Violf("C05:host-object-reachable-through-inherited-descriptor", "the program was given %d descriptors but also has descriptor %d open (dev %d ino %d mode %o): an object of the host that is in no declared bind source; %s", len(files), f.N, f.Dev, f.Ino, f.Mode, desc)
+			}
+		}
+		if few {
+			rec.Class("two-listed-descriptors-only(third stdio slot unfilled)", 1)
+		}
+	}
 	// 1. writes
 	isUnder := func(target, parent string) bool { return target == parent || strings.HasPrefix(target, parent+"/") }
 	governing := func(target string) *exp {
